@@ -11,6 +11,8 @@
   without `get!`/`getD`; the lemmas here are the quantitative side conditions.
 -/
 import OpmVerif.Proofs.Lex
+import OpmVerif.Proofs.Tok
+import OpmVerif.Proofs.LexMirror
 
 namespace OpmVerif.Lex
 
@@ -218,4 +220,44 @@ theorem fastClean_endsNL (input : Bytes) : fastClean input = [] ∨ EndsNL (fast
 write past `dst` (non-vacuity of the hypothesis of `fastClean_length_le`). -/
 example : (fastClean [65]).length = 2 := by decide
 
+/-- `find_terminator`'s recursion terminates within `length + 1` calls and agrees with the
+total state machine (restated from `LexMirror` for the C20 check). -/
+theorem findTerminator_total (l : Bytes) :
+    stripCommentsM l = stripComments l ∧ delAfterFirstSlashM l = delAfterFirstSlash l :=
+  ⟨stripCommentsM_eq l, delAfterFirstSlashM_eq l⟩
+
 end OpmVerif.Lex
+
+namespace OpmVerif.Tok
+open OpmVerif.Lex
+
+/-- **The tokeniser stays inside the record view iff no quoted token is left open**: when
+the scan ends outside a quoted token, the byte behind the view (`next`) is never used … -/
+theorem tok_inbounds (next next' : UInt8) : ∀ (l : Bytes) (st : TState),
+    tokState st l ≠ some true → tok next st l = tok next' st l := by
+  intro l
+  induction l with
+  | nil =>
+    intro st h
+    cases st with
+    | none => rfl
+    | some q => cases q with
+      | false => rfl
+      | true => exact absurd rfl h
+  | cons c r ih =>
+    intro st h
+    rw [tok_cons, tok_cons, ih (tokStep st c) (by simpa [tokState] using h)]
+
+theorem tokenize_inbounds (record : Bytes) (next next' : UInt8) (h : tokState none record ≠ some true) :
+    tokenize record next = tokenize record next' :=
+  tok_inbounds next next' record none h
+
+/-- … and the check `RawRecord` performs afterwards (an even number of `'` in the record)
+does **not** exclude the other case: `ab'c 'd` has two quotes, yet the last token is
+unterminated and `std::find(...) + 1` steps one byte past the view (the token then
+contains the record's `/`).  (Finding reported for C20; the model mirrors the code.) -/
+example : evenQuotes [97, 98, 39, 99, 32, 39, 100] = true ∧
+    tokState none [97, 98, 39, 99, 32, 39, 100] = some true ∧
+    rawRecord [97, 98, 39, 99, 32, 39, 100] 47 = some [[97, 98, 39, 99], [39, 100, 47]] := by decide
+
+end OpmVerif.Tok
